@@ -8,6 +8,7 @@ import (
 	"sort"
 	"strconv"
 	"strings"
+	"sync"
 	"time"
 
 	"github.com/markusressel/fan2go/internal"
@@ -661,6 +662,32 @@ func c11RunCase(ctx *Ctx, idx int, hostile bool) {
 				v, err := c.Evaluate()
 				if err == nil && (v < 0 || v > 255) {
 					panic(fmt.Sprintf("curve %s evaluated to %d in round %d", cc.ID, v, round))
+				}
+			}
+		}
+		// the daemon evaluates the curves from one goroutine per fan: every curve, from three goroutines at once
+		if idx%4 == 1 && len(cfg.Curves) > 0 {
+			var wg sync.WaitGroup
+			msgs := make([]string, 3)
+			for g := 0; g < 3; g++ {
+				wg.Add(1)
+				go func(g int) {
+					defer wg.Done()
+					_, msgs[g] = Guard(func() {
+						for k := 0; k < 40; k++ {
+							for _, cc := range cfg.Curves {
+								if c, ok := curves.GetSpeedCurve(cc.ID); ok {
+									_, _ = c.Evaluate()
+								}
+							}
+						}
+					})
+				}(g)
+			}
+			wg.Wait()
+			for _, m := range msgs {
+				if m != "" {
+					panic("during concurrent evaluation: " + m)
 				}
 			}
 		}
